@@ -44,7 +44,7 @@ func refCheckSigStructure(tag string, content []byte, context string, prots [][]
 // constructed COSE_Sign1: what the signer receives vs. what is later emitted
 func H_C02_sign1_constructed() {
 	msg := &Sign1Message{
-		Headers: Headers{Protected: ProtectedHeader(mkBenignMap("p", 2, false)), Unprotected: UnprotectedHeader(mkBenignMap("u", 1, false))},
+		Headers: Headers{Protected: ProtectedHeader(mkBenignMap("p", 2+vTier(), c02Rich())), Unprotected: UnprotectedHeader(mkBenignMap("u", 1, false))},
 		Payload: vBlob("payload"),
 	}
 	ext := mkExternal("ext")
@@ -116,5 +116,141 @@ func H_C02_sign1_decoded() {
 	vAssert("decoded: verifier consulted exactly once", spy.calls == 1)
 	vAssert("decoded: verifier gets the wire signature", vRopeEq(spy.sig, sig))
 	refCheckSigStructure("sign1/decoded", spy.content, "Signature1", [][]byte{protContent}, ext, payload)
+	vReach("end")
+}
+
+func init() {
+	vRegister("H_C02_signature_constructed", H_C02_signature_constructed)
+	vRegister("H_C02_signature_decoded", H_C02_signature_decoded)
+	vRegister("H_C02_noninterference", H_C02_noninterference)
+}
+
+func c02Rich() bool { return vTier() == 1 }
+
+// constructed COSE_Sign: every signer gets ["Signature", body_protected, sign_protected, external, payload]
+func H_C02_signature_constructed() {
+	n := 1 + vChoose("n", 2)
+	msg := &SignMessage{
+		Headers: Headers{Protected: ProtectedHeader(mkBenignMap("bp", 1, c02Rich())), Unprotected: UnprotectedHeader(mkBenignMap("bu", 1, false))},
+		Payload: vBlob("payload"),
+	}
+	var spies []*spySigner
+	var signers []Signer
+	for i := 0; i < n; i++ {
+		nm := "s" + vItoa(i)
+		msg.Signatures = append(msg.Signatures, &Signature{Headers: Headers{Protected: ProtectedHeader(mkBenignMap(nm+".p", 1, false)), Unprotected: UnprotectedHeader{}}})
+		sp := &spySigner{alg: Algorithm(vInt64(nm + ".alg")), sig: vBlobN(nm+".sig", 1, 100)}
+		spies, signers = append(spies, sp), append(signers, sp)
+	}
+	ext := mkExternal("ext")
+	if err := msg.Sign(nil, ext, signers...); err != nil {
+		vReach("sign refused")
+		return
+	}
+	out, err := msg.MarshalCBOR()
+	vAssert("sign: signed message encodes", err == nil)
+	if err != nil {
+		return
+	}
+	w := vParse(out)
+	ok := w != nil && nMajor(w) == 6 && nArg(w) == 98 && nMajor(nChild(w, 0)) == 4 && nLen(nChild(w, 0)) == 4
+	vAssert("sign: emitted message is tag 98 + 4-array", ok)
+	if !ok {
+		return
+	}
+	body := nChild(w, 0)
+	sa := nChild(body, 3)
+	ok = nMajor(sa) == 4 && nLen(sa) == n
+	vAssert("sign: n signatures emitted", ok)
+	if !ok {
+		return
+	}
+	for i := 0; i < n; i++ {
+		sn := nChild(sa, i)
+		if nMajor(sn) != 4 || nLen(sn) != 3 {
+			vAssert("sign: COSE_Signature is a 3-array", false)
+			continue
+		}
+		vAssert("sign: signer called once", spies[i].calls == 1)
+		refCheckSigStructure("signature/constructed", spies[i].content, "Signature",
+			[][]byte{nBytes(nChild(body, 0)), nBytes(nChild(sn, 0))}, ext, msg.Payload)
+	}
+	vReach("end")
+}
+
+// decoded COSE_Sign in any encoding: each verifier sees the structure over the wire bytes of body and its own signer
+func H_C02_signature_decoded() {
+	bp, bcontent := mkWireProtected("bp", 1)
+	bu := nnMap(nil, vWidth("buw", 0))
+	pl, payload := mkWireBstr("payload", 0, 1<<31-1)
+	n := 1 + vChoose("n", 2)
+	var sigNodes []*vNodeT
+	var contents [][]byte
+	var sigs [][]byte
+	for i := 0; i < n; i++ {
+		nm := "s" + vItoa(i)
+		var p *vNodeT
+		var c []byte
+		if i == 0 || c02Rich() {
+			p, c = mkWireProtected(nm+".p", 1)
+		} else {
+			// quick: the second signer has the empty protected header, any head width
+			c = []byte{}
+			p = nnBstr(c, vWidth(nm+".pw", 0))
+		}
+		sg, sb := mkWireBstr(nm+".sig", 1, 200)
+		sigNodes = append(sigNodes, nnArray([]*vNodeT{p, nnMap(nil, vWidth(nm+".uw", 0)), sg}, 0))
+		contents, sigs = append(contents, c), append(sigs, sb)
+	}
+	var m SignMessage
+	err := m.UnmarshalCBOR(vSer(nnTag(98, nnArray([]*vNodeT{bp, bu, pl, nnArray(sigNodes, vWidth("saw", uint64(n)))}, 0), 1)))
+	vAssert("sign/decoded: conforming COSE_Sign accepted", err == nil)
+	if err != nil {
+		return
+	}
+	ext := mkExternal("ext")
+	var spies []*spyVerifier
+	var verifiers []Verifier
+	for i := 0; i < n; i++ {
+		sv := &spyVerifier{alg: Algorithm(vInt64("v" + vItoa(i) + ".alg"))}
+		spies, verifiers = append(spies, sv), append(verifiers, sv)
+	}
+	if m.Verify(ext, verifiers...) != nil {
+		vReach("verify refused")
+		return
+	}
+	for i := 0; i < n; i++ {
+		vAssert("sign/decoded: verifier i gets signature i", vRopeEq(spies[i].sig, sigs[i]))
+		refCheckSigStructure("signature/decoded", spies[i].content, "Signature", [][]byte{bcontent, contents[i]}, ext, payload)
+	}
+	vReach("end")
+}
+
+// neither the unprotected headers nor the CBOR tag contribute a single byte (two-run comparison)
+func H_C02_noninterference() {
+	prot, _ := mkWireProtected("p", 2)
+	ua := mkWireHeaderMap("ua", 1)
+	ub := mkWireHeaderMap("ub", 1)
+	pl, _ := mkWireBstr("payload", 0, 1<<31-1)
+	sg, _ := mkWireBstr("sig", 1, 200)
+	var a Sign1Message
+	var b UntaggedSign1Message
+	vAssume(a.UnmarshalCBOR(vSer(nnTag(18, nnArray([]*vNodeT{prot, ua, pl, sg}, 0), 0))) == nil)
+	vAssume(b.UnmarshalCBOR(vSer(nnArray([]*vNodeT{prot, ub, pl, sg}, 0))) == nil)
+	ext := mkExternal("ext")
+	alg := Algorithm(vInt64("alg"))
+	sa, sb := &spyVerifier{alg: alg}, &spyVerifier{alg: alg}
+	ea, eb := a.Verify(ext, sa), b.Verify(ext, sb)
+	vAssert("noninterference: same verdict path", (ea == nil) == (eb == nil))
+	if ea == nil && eb == nil {
+		vAssert("noninterference: identical ToBeSigned for messages differing only in unprotected headers and tag", vRopeEq(sa.content, sb.content))
+	}
+	// nil and empty external data are equivalent
+	s1, s2 := &spyVerifier{alg: alg}, &spyVerifier{alg: alg}
+	e1, e2 := a.Verify(nil, s1), a.Verify([]byte{}, s2)
+	vAssert("noninterference: nil and empty external data behave alike", (e1 == nil) == (e2 == nil))
+	if e1 == nil && e2 == nil {
+		vAssert("noninterference: nil and empty external data give identical bytes", vRopeEq(s1.content, s2.content))
+	}
 	vReach("end")
 }
